@@ -1,5 +1,6 @@
 import MypyVerif.Proofs.FineGrained
 import MypyVerif.Proofs.FsWatch
+import MypyVerif.Proofs.FineGrainedSem
 /-!
 # C03 — the daemon's fine-grained updates equal a full check after every edit
 
@@ -24,46 +25,20 @@ namespace FineGrained
 variable {σ : Type}
 
 /-- **propagate_reaches_fixpoint.**  Whatever the state type, if `reprocess_nodes` behaves as
-    `ReprocessSpec` says and every stale unit is scheduled at entry (reachable from an active trigger through
-    the dependency map outside the up-to-date modules, or named by a target with errors), then
-    `propagate_changes_using_dependencies` either gives up explicitly after `k` iterations (`maxIter`) or
-    returns a state in which no unit is stale. -/
-theorem propagate_reaches_fixpoint (S : Sys σ) (Stale : σ → Target → Prop) (spec : ReprocessSpec S Stale) :
-    ∀ (k : Nat) (s : σ) (trig : List Name) (utd : List Mod) (terr : List Target) (rem : List Mod),
-    (∀ u, Stale s u → Scheduled S s trig utd terr u) →
+    `ReprocessSpec` says (for some invariant `Inv` of the build manager's state) and every stale unit is
+    scheduled at entry (reachable from an active trigger through the dependency map outside the up-to-date
+    modules, or named by a target with errors), then `propagate_changes_using_dependencies` either gives up
+    explicitly after `k` iterations (`maxIter`, the code's `RuntimeError`) or returns a state in which no unit
+    is stale. -/
+theorem propagate_reaches_fixpoint (S : Sys σ) (Inv : σ → Prop) (Stale : σ → Target → Prop)
+    (spec : ReprocessSpec S Inv Stale)
+    (k : Nat) (s : σ) (trig : List Name) (utd : List Mod) (terr : List Target) (rem : List Mod)
+    (hinv : Inv s) (h : ∀ u, Stale s u → Scheduled S s trig utd terr u) :
     (∃ s', propagate S k s trig utd terr rem = .maxIter s') ∨
     (∃ s' rem', propagate S k s trig utd terr rem = .done s' rem' ∧ ∀ u, ¬ Stale s' u) := by
-  intro k
-  induction k with
-  | zero =>
-    intro s trig utd terr rem h
-    simp only [propagate]
-    split
-    · rename_i he
-      right
-      refine ⟨s, rem, rfl, ?_⟩
-      intro u hu
-      simp only [Bool.and_eq_true, List.isEmpty_iff] at he
-      rcases h u hu with ⟨n, hn, _⟩ | ⟨t, ht, _⟩
-      · rw [he.1] at hn; cases hn
-      · rw [he.2] at ht; cases ht
-    · exact Or.inl ⟨s, rfl⟩
-  | succ k ih =>
-    intro s trig utd terr rem h
-    simp only [propagate]
-    split
-    · rename_i he
-      right
-      refine ⟨s, rem, rfl, ?_⟩
-      intro u hu
-      simp only [Bool.and_eq_true, List.isEmpty_iff] at he
-      rcases h u hu with ⟨n, hn, _⟩ | ⟨t, ht, _⟩
-      · rw [he.1] at hn; cases hn
-      · rw [he.2] at ht; cases ht
-    · apply ih
-      intro u hu
-      obtain ⟨n, hn, t, m, hr, hm, hl, hu'⟩ := iteration_spec S Stale spec s trig utd terr rem h u hu
-      exact Or.inl ⟨n, hn, t, m, hr, hm, by simp, hl, hu'⟩
+  rcases propagate_spec S Inv Stale spec k s trig utd terr rem hinv h with h | ⟨s', rem', h1, _, h3⟩
+  · exact Or.inl h
+  · exact Or.inr ⟨s', rem', h1, h3⟩
 
 /-- non-vacuity (1): a two-module system in which the second unit becomes stale only because of the trigger
     fired while reprocessing the first one — two iterations, then a fixpoint.
@@ -154,6 +129,185 @@ theorem sortMessages_mem (msgs prev : List Msg) (m : Msg) : m ∈ sortMessages m
 
 example : sortMessages [⟨2, 7⟩, ⟨1, 5⟩, ⟨2, 8⟩, ⟨3, 1⟩, ⟨1, 6⟩] [⟨1, 0⟩, ⟨2, 0⟩]
     = [⟨1, 5⟩, ⟨1, 6⟩, ⟨2, 7⟩, ⟨2, 8⟩, ⟨3, 1⟩] := by decide
+
+/-! ### update = full check, for every edit history -/
+
+/-- a history of edits: each step gives the new program and the modules that differ from the previous one;
+    `full W` stands for the state a fresh, non-incremental check of `W` ends in -/
+def EditChain (full : World → SemSt) : World → List (World × List Mod) → Prop
+  | _, [] => True
+  | W, (W', C) :: rest =>
+    Edit W W' C ∧ C ≠ [] ∧ WorldOK W' ∧ Determinate W' ∧ Consistent W' (full W') ∧ EditChain full W' rest
+
+/-- after every update of the history that returns (the alternative is the explicit MAX_ITER failure), the
+    error map is the full check's and the messages agree with the full check's file by file, in order,
+    whatever the previous messages were -/
+def AllEqFull (full : World → SemSt) : UpdSt → List (World × List Mod) → Prop
+  | _, [] => True
+  | u, (W', C) :: rest =>
+    match update W' u C with
+    | none => True
+    | some u' =>
+      (∀ t, u'.st.emap t = (full W').emap t) ∧
+      (∀ prev f, (sortMessages (newMessages W' u'.st) prev).filter (fun m => m.file = f)
+                  = (newMessages W' (full W')).filter (fun m => m.file = f)) ∧
+      AllEqFull full u' rest
+
+theorem newMessages_congr (W : World) (s s' : SemSt) (h : ∀ t, s.emap t = s'.emap t) : newMessages W s = newMessages W s' := by
+  unfold newMessages
+  have : s.emap = s'.emap := funext h
+  rw [this]
+
+/-- **update_eq_full.**  For every finite edit history over programs whose checker, dependency generation and
+    snapshot diff satisfy `WorldOK` (H_complete + locality) and whose snapshots are determinate, starting
+    from a state that is good for the first program: after each `update` the daemon's error map equals the
+    one of a full check of the program as it is at that moment, and the rendered messages
+    (`sort_messages_preserving_file_order` applied to `errors.new_messages()`) equal the full check's in every
+    file, in the same order. -/
+theorem update_eq_full (full : World → SemSt) : ∀ (hist : List (World × List Mod)) (W : World) (u : UpdSt),
+    Good W u → EditChain full W hist → AllEqFull full u hist
+  | [], _, _, _, _ => trivial
+  | (W', C) :: rest, W, u, hg, hc => by
+    obtain ⟨hedit, hC, hok, hdet, hfull, hrest⟩ := hc
+    simp only [AllEqFull]
+    cases hup : update W' u C with
+    | none => trivial
+    | some u' =>
+      have hg' : Good W' u' := update_good W W' C u u' hok hC hg hedit hup
+      have heq : ∀ t, u'.st.emap t = (full W').emap t :=
+        consistent_unique W' hdet _ _ (good_consistent W' hok u' hg') hfull
+      refine ⟨heq, ?_, update_eq_full full rest W' u' hg' hrest⟩
+      intro prev f
+      rw [sortMessages_keeps_file_order, newMessages_congr W' _ _ heq]
+
+/-- no error whose cause was removed survives, no error of the full check is missed — the set version -/
+theorem update_same_messages (W W' : World) (C : List Mod) (u u' : UpdSt) (sFull : SemSt) (prev : List Msg)
+    (hg : Good W u) (hedit : Edit W W' C) (hC : C ≠ []) (hok : WorldOK W') (hdet : Determinate W')
+    (hfull : Consistent W' sFull) (hup : update W' u C = some u') (m : Msg) :
+    m ∈ sortMessages (newMessages W' u'.st) prev ↔ m ∈ newMessages W' sFull := by
+  rw [sortMessages_mem]
+  have hg' : Good W' u' := update_good W W' C u u' hok hC hg hedit hup
+  rw [newMessages_congr W' _ _ (consistent_unique W' hdet _ _ (good_consistent W' hok u' hg') hfull)]
+
+/-! non-vacuity: a two-module program — unit 10 (module 0) defines name 1 with snapshot `k`, unit 20
+    (module 1) reads it and reports an error when it is not 0 — satisfies every hypothesis; editing module 0
+    (k: 0 ↦ 5) makes the update reprocess unit 20 in the *unedited* module, which gets the error. -/
+
+def demoW (k : Nat) : World where
+  units := [10, 20]
+  modOf t := if t = 10 then 0 else if t = 20 then 1 else 2
+  line _ := 0
+  owner n := if n = 1 then some 10 else none
+  nameMod n := if n = 1 then 0 else 9
+  checkT t e := if t = 20 then { errs := if e 1 = 0 then [] else [⟨1, e 1⟩], reads := [1], defs := fun _ => 0 }
+                else { errs := [], reads := [], defs := fun _ => if t = 10 then k else 0 }
+  analyze us e := fun n => if n = 1 ∧ 10 ∈ us then k else e n
+  depGen t _ := if t = 20 then [(1, [.tgt 20])] else []
+  snapDiff e e' := if e 1 = e' 1 then [] else [1]
+
+def demoU0 : UpdSt where
+  st := { env := fun _ => 0, emap := fun _ => [], deps := [(1, [.tgt 20])],
+          seen := fun t => if t = 20 then [(1, 0)] else [], gerr := fun _ => [] }
+  prevErr := []
+
+theorem demoW_ok (k : Nat) : WorldOK (demoW k) where
+  frame := by
+    intro t e e' h
+    by_cases ht : t = 20
+    · have : e 1 = e' 1 := h 1 (by simp [demoW, ht])
+      simp [demoW, ht, this]
+    · simp [demoW, ht]
+  depsComplete := by
+    intro t e n hn
+    by_cases ht : t = 20
+    · simp [demoW, ht] at hn
+      subst hn; subst ht
+      exact Reach.step (n := 1) (Reach.base (by simp)) (by simp [demoW, Deps.get])
+    · simp [demoW, ht] at hn
+  diffComplete := by
+    intro e e' t e0 n hn hne
+    by_cases ht : t = 20
+    · simp [demoW, ht] at hn
+      subst hn
+      simp [demoW, hne]
+    · simp [demoW, ht] at hn
+  analyzeDefs := by
+    intro us e n t hn ht
+    by_cases h1 : n = 1
+    · simp [demoW, h1] at hn
+      subst hn
+      simp [demoW, h1, ht]
+    · simp [demoW, h1] at hn
+  analyzeLocal := by
+    intro us e n h
+    by_cases h1 : n = 1
+    · have := h 10 (by simp [demoW, h1])
+      simp [demoW, h1, this]
+    · simp [demoW, h1]
+  ownerUnit := by
+    intro n t hn
+    by_cases h1 : n = 1
+    · simp [demoW, h1] at hn
+      subst hn
+      simp [demoW, h1]
+    · simp [demoW, h1] at hn
+
+theorem demoW_determinate (k : Nat) : Determinate (demoW k) := by
+  intro e e' h1 h2 h3 h4
+  funext n
+  by_cases hn : n = 1
+  · subst hn
+    rw [h1 1 10 (by simp [demoW]), h3 1 10 (by simp [demoW])]
+    simp [demoW]
+  · rw [h2 n (by simp [demoW, hn]), h4 n (by simp [demoW, hn])]
+
+theorem demo_good : Good (demoW 0) demoU0 where
+  rec_ := by
+    intro t ht
+    refine ⟨fun _ => 0, ?_, ?_, ?_⟩
+    · by_cases h : t = 20 <;> simp [demoW, demoU0, h]
+    · by_cases h : t = 20 <;> simp [demoW, demoU0, h]
+    · intro n hn
+      by_cases h : t = 20 <;> simp [demoW, demoU0, h]
+  fresh := by
+    intro t _ ⟨p, hp, hne⟩
+    by_cases h : t = 20
+    · simp [demoU0, h] at hp
+      subst hp
+      simp [demoU0] at hne
+    · simp [demoU0, h] at hp
+  emapOK := by intro t _; rfl
+  nonunit := by intro t _; rfl
+  unowned := by intro n _; rfl
+  depsok := by
+    intro t _ p hp
+    by_cases h : t = 20
+    · simp [demoU0, h] at hp
+      subst hp; subst h
+      exact Reach.step (n := 1) (Reach.base (by simp)) (by simp [demoU0, Deps.get])
+    · simp [demoU0, h] at hp
+  prev := by intro t ht; exact absurd rfl ht
+
+theorem demo_edit : Edit (demoW 0) (demoW 5) [0] where
+  modOf_eq := rfl
+  nameMod_eq := rfl
+  units_eq := by intro t _; rfl
+  check_eq := by
+    intro t ht
+    have : t ≠ 10 := by intro h; subst h; simp [demoW] at ht
+    funext e
+    by_cases h : t = 20 <;> simp [demoW, h, this]
+  owner_eq := by intro n _; rfl
+
+/-- the update after the edit reprocesses unit 20 of the unedited module 1: its error appears -/
+example : (update (demoW 5) demoU0 [0]).map (fun u => (u.st.emap 20, u.st.emap 10, u.st.env 1, u.prevErr))
+    = some ([⟨1, 5⟩], [], 5, [20]) := by decide
+
+/-- … and it equals the full check (any consistent state of the edited program) -/
+example (sFull : SemSt) (hfull : Consistent (demoW 5) sFull) (u' : UpdSt) (hup : update (demoW 5) demoU0 [0] = some u') :
+    ∀ t, u'.st.emap t = sFull.emap t :=
+  consistent_unique _ (demoW_determinate 5) _ _
+    (good_consistent _ (demoW_ok 5) u' (update_good _ _ [0] demoU0 u' (demoW_ok 5) (by simp) demo_good demo_edit hup)) hfull
 
 end FineGrained
 
